@@ -84,8 +84,11 @@ def plan(tier, seed):
     sc = scenarios(tier)
     for si, (name, cls, nfiles, steps) in enumerate(sc):
         for ci, cfg in enumerate(ATOMIC_CFGS):
-            if tier == "quick" and (si + ci + seed) % 3 != 0 and name not in ("root_setitem", "backend_flush_3",
-                                                                               "first_write_missing_file", "symlinked_file", "deepcopied_handle"):
+            if tier == "quick" and name == "deepcopied_handle":
+                if ci != 0:
+                    continue  # quick: the configuration in which only write_concern makes the save atomic
+            elif tier == "quick" and (si + ci + seed) % 3 != 0 and name not in ("root_setitem", "backend_flush_3",
+                                                                                 "first_write_missing_file"):
                 continue  # quick: each scenario in one configuration (rotating with the seed)
             specs.append({"kind": "crash", "scenario": si, "cfg": cfg, "tier": tier, "seed": seed})
     specs.append({"kind": "control", "tier": tier, "seed": seed})
